@@ -7,6 +7,8 @@ Driver commands for C12 / C17 (stateful mode `schema`).
   stamp <schema> a b c    the version triple is the one the creator is meant to stamp
                           (generated `stampGen`) and the one the public table lists
   detect a b c numeric    Spec table lookup (which schema a reference dump belongs to)
+  canoncls <hex>*         for each text the index of the first text with the same `canon`
+                          (the class table of Gen/SchemaFacts.lean; re-checked by the kernel there)
 
 C17 (Spec/Catalog.lean, Spec/Validator.lean):
   c17.base <id> <dump>                      register the catalog of a created library (DDL text dropped)
@@ -221,6 +223,14 @@ def step (st : State) (cmd : String) (args : List String) : State × String :=
     | some (_, base), some (m, minus, plus) => (st, c17Mut base m minus plus)
     | none, _ => (st, "bad-op unknown-id")
     | _, none => (st, "bad-op parse")
+  | "canoncls", a =>
+    match a.mapM (fun t => bytesToStr <$> parseHexBytes t) with
+    | none => (st, "bad-op hex")
+    | some ts =>
+      let cs := (ts.map canonChars).toArray
+      let cls := (List.range cs.size).map fun i =>
+        ((List.range (i + 1)).find? fun j => cs[j]! == cs[i]!).getD i
+      (st, "ok " ++ " ".intercalate (cls.map toString))
   | "stamp", a => (st, stampCmd a)
   | "detect", a => (st, detectCmd a)
   | _, _ => (st, "bad-op unknown")
